@@ -215,7 +215,7 @@ def r3_multi_borrow(ctx):
     ctx.count("type_equality_patterns_evaluated", total)
 
 
-def r4_holding(ctx):
+def r4_holding(ctx, rule="C02.R4"):
     """K6 on State::holding with the registry modelled as a chain of three scopes (which scope holds T, which holds the
     placeholder) - every placement of T x {closure succeeds, closure fails, closure inserts its own T on top}:
     the closure runs with T taken out of the state, afterwards T is back in exactly the scope it came from, the
@@ -230,13 +230,15 @@ def r4_holding(ctx):
     # ---- the placeholder type
     keys = {(t["f"].get("gargs") or [None])[0] for bb, t in body.calls() if t["f"].get("key", "").startswith(R)}
     markers = sorted(k for k in keys if k and k != "T")
-    if not ctx.check(len(markers) == 1, "C02.R4", fn.key, "placeholder", "holding() does not use exactly one placeholder state type (found %s)" % markers, kind="undecided-shape", loc=fn.loc()):
+    if len(markers) > 1:
+        ctx.check(False, rule, fn.key, "placeholder", "holding() uses more than one placeholder state type (%s)" % markers, kind="undecided-shape", loc=fn.loc())
         return
-    marker_ty = markers[0]
+    marker_ty = markers[0] if markers else "<no placeholder>"
     generic_in_T = re.search(r"<(.*\b)?T\b.*>$", marker_ty) is not None
-    ctx.check(generic_in_T and "::holding::" in marker_ty, "C02.R4", fn.key, "placeholder-per-type",
-              "the placeholder type %s is not a function-local type parameterised by T: nested holding() calls for different types would share one "
-              "placeholder key and put their states back into each other's scope" % marker_ty, detail=marker_ty, loc=fn.loc())
+    if markers:
+        ctx.check(generic_in_T and "::holding::" in marker_ty, rule, fn.key, "placeholder-per-type",
+                  "the placeholder type %s is not a function-local type parameterised by T: nested holding() calls for different types would share one "
+                  "placeholder key and put their states back into each other's scope" % marker_ty, detail=marker_ty, loc=fn.loc())
     # ---- semantics over scope placements
     LEVELS = 3
     bad = []
@@ -321,7 +323,7 @@ def r4_holding(ctx):
                 bad.append(where + ("leaves the placeholder behind in scope(s) %s" % (list(ms.get("m")),),))
             elif res != ("Err" if outcome == "err" else "Ok"):
                 bad.append(where + ("returns %s" % res,))
-    ctx.check(not bad, "C02.R4", fn.key, "put-back-where-it-came-from", "T held in %s, closure %s: holding() %s" % (bad[0] if bad else ("", "", "")), detail="%d scenarios" % n, loc=fn.loc())
+    ctx.check(not bad, rule, fn.key, "put-back-where-it-came-from", "T held in %s, closure %s: holding() %s" % (bad[0] if bad else ("", "", "")), detail="%d scenarios" % n, loc=fn.loc())
 
 
 def run(ctx):
